@@ -45,7 +45,7 @@ def r1_dunders(R) -> None:
         rets = f.returns()
         R.check(len(rets) == 1 and rets[0].ast.value is c, q, 'returns-base', 'the base result is returned', f'{m} does not return the base result', where=f.fi.where)
         # what the base receives as key, as one gated expression over the key given
-        se = f.symexec()
+        se = f.symexec(methods=True, exclude=(RES, 'self.__getitem__', 'self.__setitem__'))
         st_ = [s_ for s_ in ast.walk(f.fi.node) if isinstance(s_, ast.stmt) and id(s_) in se.before and any(x is c for x in ast.walk(s_))]
         kv = canon(se.value(st_[-1], c.args[0])) if st_ and c.args else None
         if kv is None:
@@ -69,6 +69,11 @@ def r1_dunders(R) -> None:
                 while isinstance(rest, ast.Call) and isinstance(rest.func, ast.Name) and rest.func.id in ('list', 'tuple') and len(rest.args) == 1:
                     rest = rest.args[0]
                 ok = text(rest) == f'{key}[1:]'
+            # every item of the key mapped through the alias table: the span index is looked up as if it were a name
+            if not ok and isinstance(tup, ast.Call) and isinstance(tup.func, ast.Name) and tup.func.id in ('tuple', 'list') and len(tup.args) == 1 \
+                    and isinstance(tup.args[0], (ast.GeneratorExp, ast.ListComp)) and len(tup.args[0].generators) == 1 \
+                    and text(tup.args[0].generators[0].iter) == key and text(tup.args[0].elt) == f'{RES}({text(tup.args[0].generators[0].target)})':
+                shown = text(tup)[:70] + ' (the span index, too, is looked up in the alias table: a period label that happens to be an alias name is replaced by a variable name)'
         R.check(ok, q, 'tuple-key:' + shown[:60], 'in a (name, index) key only the name is resolved; the index part passes unchanged',
                 f'tuple keys become `{shown}`', where=f.fi.where)
     # _resolve_alias
